@@ -73,6 +73,8 @@ type run struct {
 	released        bool                   // calls suspended by a hold continued in the segment being judged: events cannot be attributed to the primary op alone
 	justReleased    map[string]delayedSync // delayed Synchronize calls that reached the scheduler in the segment being judged
 	pendingReleased bool                   // a hold was ended outside window(): the next segment is a release window
+	modelHolds      bool                   // model-compared history with held wake-ups (hold=1): the continuations of suspended workers are fed to the model when the hold ends
+	segReadAt       map[string]int64       // clock values that calls released in this segment had read
 	selHeld         bool                   // an Execute call is parked inside Select (hold=3); only another Execute may follow
 	termSeen        map[string]bool        // workers observed with the terminating mark (C05.terminating_monotone)
 	holdThis        bool                   // the op being applied keeps woken-up workers suspended before they re-take the scheduler lock
@@ -326,12 +328,36 @@ func (r *run) window(primary string, an string) {
 		return strings.Split(parts[1], ",")
 	}
 	enabled := ask(primary)
-	for guard := 0; len(enabled) > 0 && guard < 100 && r.fail == nil; guard++ {
-		e := strings.Split(enabled[0], ":")
+	// the continuation of a worker that is suspended between its wake-up and the scheduler lock is
+	// not run now: the model gets it in the segment in which the hold ends, like the implementation
+	suspended := func(x string) bool {
+		e := strings.Split(x, ":")
+		if e[0] == "w" && w.clk.gated(e[1]) {
+			r.flags["deferred-continuation"] = true
+			return true
+		}
+		return false
+	}
+	for guard := 0; guard < 100 && r.fail == nil; guard++ {
+		next := ""
+		for _, x := range enabled {
+			if !suspended(x) {
+				next = x
+				break
+			}
+		}
+		if next == "" {
+			break
+		}
+		e := strings.Split(next, ":")
 		switch e[0] {
 		case "w":
 			f := strings.Split(e[1], "/")
-			enabled = ask(fmt.Sprintf("wwake %d %s %s %s %s", now, f[0], f[1], f[2], e[2]))
+			t := now
+			if v, ok := r.segReadAt[e[1]]; ok {
+				t = v
+			}
+			enabled = ask(fmt.Sprintf("wwake %d %s %s %s %s", t, f[0], f[1], f[2], e[2]))
 		case "k":
 			enabled = ask("twake " + e[1] + " 0")
 		case "s":
@@ -448,7 +474,7 @@ func (r *run) apply(line string) {
 		case "retry":
 			w.an.retry = p[1] == "1"
 		case "hold": // monitor-only histories: see fakeClock.hold
-			r.holdThis = (p[1] == "1" || p[1] == "2" || p[1] == "3") && r.noModel
+			r.holdThis = (p[1] == "1" || p[1] == "2" || p[1] == "3") && r.noModel || p[1] == "1" && r.modelHolds
 			w.slowSelectNext = p[1] == "3" && r.noModel && args[1] == "exec"
 			w.delayNext = p[1] == "2" && r.noModel && args[1] == "sync"
 		}
@@ -485,8 +511,13 @@ func (r *run) apply(line string) {
 		w.clk.hold()
 	}
 	switch args[1] {
-	case "mode": // monitor [slow]: the rest of the history is judged by the monitors alone (no model)
+	case "mode": // monitor [slow]: the rest of the history is judged by the monitors alone (no model); modelholds: model-compared with hold=1
+		if a[0] == "modelholds" {
+			r.modelHolds = true
+			return
+		}
 		r.noModel = true
+		w.gateAuth = true
 		w.slowSends = len(a) > 1 && a[1] == "slow"
 		return
 	case "regpq": // comps plat sizes bgmax bgprio
@@ -880,6 +911,7 @@ func synctest_run(t *testing.T, r *run, body func()) {
 	watchReset()
 	synctest.Test(t, func(t *testing.T) {
 		r.w = newWorld(defaultCfg)
+		r.w.gateAuth = r.noModel
 		c := defaultCfg
 		out, err := r.askModel(fmt.Sprintf("cfg %d %d %d %d %d %d %d %d", c.update, c.idle, c.noWaiter, c.pqTimeout, c.busy, c.workerTimeout, c.retryCount, epoch+c.pqTimeout))
 		if err != nil || out != "ok" {
